@@ -2,10 +2,13 @@
 # Run every registered check at the given tier (default quick) and summarise.
 tier=${1:-quick}
 cd "$(dirname "$0")/.."
+tmp=$(mktemp)
 for c in C01 C02 C03 C04 C05 C06 C07 C08 C09 C10 C11 C12 C13 C14 C15 C16 C17; do
   s=$(date +%s)
-  out=$(python3 vcheck.py $c $tier 2>&1 | tail -1)
+  python3 vcheck.py $c $tier > "$tmp" 2>&1
   rc=$?
   e=$(date +%s)
-  echo "$c rc=$rc $((e-s))s  $out"
+  echo "$c rc=$rc $((e-s))s  $(tail -1 "$tmp")"
+  grep -E "^(VIOLATION|KNOWN-FINDING)" "$tmp" | head -5
 done
+rm -f "$tmp"
